@@ -135,6 +135,12 @@ func init() {
 							cls := "balances"
 							if strings.Contains(d, "module:dao") && !strings.Contains(d, "balance A") {
 								cls = "dao-balance"
+								// the recorded defect mints the exported DAO balance a second time: exactly doubled
+								x, ok1 := new(big.Int).SetString(ba["module:dao"], 10)
+								y, ok2 := new(big.Int).SetString(bb["module:dao"], 10)
+								if ok1 && ok2 && new(big.Int).Lsh(x, 1).Cmp(y) == 0 {
+									cls = "dao-balance/doubled"
+								}
 							}
 							c.Report("reimport/"+cls, fmt.Sprintf("exported after %s: %s", hist, d), rep)
 							diffs = append(diffs, d)
